@@ -172,6 +172,8 @@ class SpyMiddleware:
                 raise make_exc(s.get("exc", "RuntimeError"), s.get("msg", "mw boom"))
             if s["outcome"] == "deny":
                 outcome = "deny"
+                # "response": None models a component that refuses without a message (the declared
+                # return type is tuple[bool, str | None])
                 return False, s.get("response", "53 Denied by spy\r\n")
             outcome = "allow"
             return True, None
